@@ -185,12 +185,12 @@ type H013 struct {
 // fixed-size byte arrays of lengths on both sides of 16 and 32 bytes (where the
 // FIXED_LEN_BYTE_ARRAY encoders, decoders, dictionaries and bounds kernels switch code paths), under
 // every value encoding, required / optional / pointer / repeated / inside a repeated group
-type H014In struct {
+type H016In struct {
 	D [20]byte `parquet:"d,delta"`
 	O [33]byte `parquet:"o,optional,split"`
 }
 
-type H014 struct {
+type H016 struct {
 	A  [1]byte    `parquet:"a"`
 	B  [15]byte   `parquet:"b,delta"`
 	C  [17]byte   `parquet:"c,delta"`
@@ -200,7 +200,7 @@ type H014 struct {
 	G  [17]byte   `parquet:"g,optional"`
 	H  *[33]byte  `parquet:"h"`
 	L  [][20]byte `parquet:"l"`
-	In []H014In   `parquet:"in"`
+	In []H016In   `parquet:"in"`
 }
 
 // OddCatalog: undocumented shapes (observations only).
@@ -220,7 +220,7 @@ var ExtCatalog []*Entry
 func init() {
 	for _, e := range []*Entry{
 		entryOf[H006]("H006"), entryOf[H007]("H007"), entryOf[H008]("H008"),
-		entryOf[H009]("H009"), entryOf[H011]("H011"), entryOf[H014]("H014"),
+		entryOf[H009]("H009"), entryOf[H011]("H011"), entryOf[H016]("H016"),
 	} {
 		if e != nil {
 			ExtCatalog = append(ExtCatalog, e)
